@@ -3,7 +3,7 @@
 From Coq Require Import List Arith NArith ZArith Bool String.
 From Coq.Strings Require Import Byte.
 From Peppi Require Import Base.Bytes Base.Outcome Gen.Funs Model.Ubjson Model.Start Model.Json Model.Parse Model.Reader Model.Writer
-  Model.Recorder Proofs.UbjsonProof Proofs.TableFacts Proofs.ReadProof Proofs.Corollaries.
+  Model.Recorder Gen.UbjsonMarkers Proofs.UbjsonProof Proofs.TableFacts Proofs.ReadProof Proofs.Corollaries Proofs.UbjsonLayout.
 Import ListNotations.
 
 (* every well-formed tree (strings <= 255 bytes of valid UTF-8, 32-bit integers, nested maps, distinct keys per map) is
@@ -35,8 +35,22 @@ Proof. exact c16_meta_preserved. Qed.
 Theorem C16_json_copy_faithful : forall v, wf_val v -> uval_of_jv (jv_of_uval v) = Some v.
 Proof. exact c16_json_roundtrip. Qed.
 
+(* the marker bytes, the u8 length prefix of strings, the 4-byte big-endian integers and the brace pairs of the model are those
+   regenerated from src/io/ubjson/{de,ser}.rs on this run; one step of the reader loop is the regenerated dispatch *)
+Theorem C16_markers_from_source :
+  xU = kmark "key" /\ xClose = kmark "end" /\ xS = vmark "str" /\ xl = vmark "i32" /\ xOpen = vmark "map" /\
+  xU = n2b ubj_str_len_marker /\ xU = n2b ubj_wr_utf8_marker /\
+  [xS] = wbefore "String" /\ [xl] = wbefore "Number" /\ [xOpen] = wbefore "Object" /\ [xClose] = wafter "Object" /\
+  wafter "String" = [] /\ wafter "Number" = [].
+Proof. exact ubjson_markers_from_source. Qed.
+Theorem C16_reader_step_from_source : forall f depth acc bs,
+  entries (S f) depth acc bs = entries_step_src (entries f) depth acc bs.
+Proof. exact entries_from_source. Qed.
+
 Print Assumptions C16_write_ok.
 Print Assumptions C16_read_write.
 Print Assumptions C16_truncated_rejected.
 Print Assumptions C16_file_metadata.
 Print Assumptions C16_json_copy_faithful.
+Print Assumptions C16_markers_from_source.
+Print Assumptions C16_reader_step_from_source.
